@@ -167,6 +167,12 @@ def gen_cases(tier, seed):
     # simplest first
     for _, c in sorted(big, key=lambda fc: fc[0]):
         yield c
+    # the task names its feature columns in another order than the dataset stores them
+    for kind in ("hdd", "ram"):
+        for cv in ("kfold2", "single"):
+            L, B = _bounds(tier, kind, 2 * N_FOLDS[cv])
+            yield dict(kind=kind, task="tsc", nd=2, ns=1, cv=cv, fam=fam, L=min(L, 2), B=min(B, 1),
+                       first=None, feat="rev")
     # ONE Orchestrator object used for all runs of a history vs a new one per run
     for kind, confs in (("hdd", hdd), ("ram", ram)):
         for task, nd, ns, cv in confs:
@@ -441,6 +447,10 @@ class Ctx:
                                           "first")}
         if case.get("reuse"):
             self.case["reuse"] = True
+        # feat="rev": the task lists the feature columns in the reverse of the dataset's order
+        self.featrev = case.get("feat") == "rev"
+        if self.featrev:
+            self.case["feat"] = "rev"
         self.kind, self.task, self.cv, self.fam = case["kind"], case["task"], case["cv"], \
             case["fam"]
         self.uea = self.cv.startswith("presplit")
@@ -467,6 +477,8 @@ class Ctx:
             for (s, d, f) in self.units:
                 df = self.data[d]
                 feats = [c for c in df.columns if c != "target"]
+                if self.featrev:
+                    feats = feats[::-1]
                 tr, te = self.folds[d][f]
                 est = self.est(tag=s, variant=self.variant[s])
                 est.fit(df[feats].iloc[tr], df["target"].iloc[tr])
@@ -499,6 +511,9 @@ class Ctx:
                         for di, d in enumerate(self.dnames)]
         T, S = (TSCTask, TSCStrategy) if self.task == "tsc" else (TSRTask, TSRStrategy)
         tasks = [T(target="target") for _ in self.dnames]
+        if self.featrev and not self.uea:
+            tasks = [T(target="target", features=["dim_%d" % c for c in reversed(range(1 + di))])
+                     for di, _ in enumerate(self.dnames)]
         strategies = [S(self.est(tag=s, variant=self.variant[s]), name=s) for s in self.snames]
         cv = {"kfold2": lambda: KFold(2), "kfold3": lambda: KFold(3),
               "single": lambda: SingleSplit(random_state=SS_STATE),
